@@ -466,12 +466,14 @@ def _clean_up_state(state: State) -> None:
     # Remove all old flow states based on last status update to limit their number
     # TODO: Refactor, we need to have reference based clean up approach
     states_to_be_removed = []
-    # Flows that are still the parent of an unfinished flow (e.g. the first activator of
-    # an activated flow that is kept alive by another activator) must not be removed
+    # Flows that are still the parent of a flow that is kept (an unfinished flow, or the
+    # finished reference instance of an activated flow whose restarted instance is kept alive
+    # by another activator) must not be removed
     active_parent_uids = {
         flow_state.parent_uid
         for flow_state in state.flow_states.values()
-        if not _is_done_flow(flow_state) and flow_state.parent_uid is not None
+        if (not _is_done_flow(flow_state) or flow_state.activated > 0)
+        and flow_state.parent_uid is not None
     }
     for flow_state in state.flow_states.values():
         if (
